@@ -5,6 +5,10 @@ ALL = ["C%02d" % i for i in range(1, 21)]
 OPS_NOTE = "Trusted: Lean kernel; extractor (syntactic); harness generators/comparator; go-openapi/spec JSON loading; swag.ToGoName and jsonreference decoding supplied as tables by the real libraries (external functions of the model)."
 MIX_NOTE = "Trusted: Lean kernel; extractor (syntactic); harness generators/comparator; go-openapi/spec JSON loading. Documents are in the spec model's serialization normal form; the warnings theorem assumes distinct keys per object and well-typed info/contact/license; generator keeps ids unique per document (hypothesis of C18)."
 checks = {
+ "C20": dict(cat="proof", technique="Lean 4 theorems about a fuel-indexed model of schema.go (coherence by induction on fuel, $ref transparency, documented rules by case analysis on the schema shape, termination with an explicit fuel bound, divergence without the guard) + regenerated fact (visited guard) + differential correspondence in killable child processes",
+   text="Proved in Lean for every root document, schema, external format registry and $ref decoder: every successful classification is coherent; a schema carrying a $ref classifies exactly like its target; objects with properties, allOf and tuples are complex while primitives, arrays, maps and empty objects are not; with the visited-$ref guard (fact re-extracted from schema.go on every run) classification terminates within an explicit fuel bound, and without it an array of itself diverges for every fuel (defect D9, repaired). spec.ExpandSchema is modelled lazily; that equivalence is validated, not proved, by the classify stream (each call in a child process with a 10 s timeout).",
+   note="Trusted: Lean kernel; extractor (syntactic); harness generators/comparator; the lazy model of spec.ExpandSchema (validated by differential execution only); strfmt registry and jsonreference decoding supplied as tables by the real libraries.",
+   ref="§7 C20"),
  "C17": dict(cat="proof", technique="Lean 4 theorems about a hand-written model of mixin.go (never panics, first-wins keyed sections, de-duplicated ordered unions, first-non-empty scalars, warnings = collisions), facts regenerated from mixin.go, differential correspondence incl. collision reports",
    text="Proved in Lean for every primary and every list of mixins (any length, any entry order): Mixin never panics given the extracted guard fact; each keyed section is the first-wins union (paths up to operation ids); list fields are the order-preserving de-duplicated union starting from the primary's list; scalars come from the first document that has them; the number of reports equals the number of key collisions (for documents with distinct keys and well-typed info parts; counterexamples to the unguarded statements are kernel-checked in C17Counterexamples). The model is tied to the code by the regenerated facts and by differential execution on generated primaries with 0..3 mixins.",
    note=MIX_NOTE, ref="§7 C17"),
